@@ -65,6 +65,9 @@ func genC06(c *Ctx) *Plan {
 		}
 	}
 	sort.SliceStable(p.Ops, func(i, j int) bool { return p.Ops[i].At < p.Ops[j].At })
+	// the observer's own health score when the suspicion starts: the suspicion timeouts are a
+	// function of the configured probe interval, not of the awareness-scaled one
+	p.P["health"] = int64(r.pick(0, 0, 0, 1, 2, 3, 7))
 	return p
 }
 
@@ -133,6 +136,10 @@ func execC06(c *Ctx) {
 	// millisecond: allow 0.1% of the maximum timeout plus 3 ms
 	tol := 3*time.Millisecond + time.Duration(p.Cfg.SuspicionMult*p.Cfg.SuspicionMaxMult)*pi/1000
 	inc := uint32(3)
+	if h := int(p.param("health", 0)); h > 0 {
+		m.awareness.ApplyDelta(h)
+		c.Reach("observer_degraded")
+	}
 	ts := b.sim.Now()
 	m.suspectNode(&suspect{Incarnation: inc, Node: "px", From: accuser})
 	ref := newRefTimer(ts, accuser, p.Cfg.SuspicionMult, p.Cfg.SuspicionMaxMult, n, pi)
